@@ -1,4 +1,5 @@
 """C01 Parse then print reproduces the input character for character."""
+import re
 from .. import common, gen, walker
 from autobean_refactor import models
 from autobean_refactor.models import base as mbase
@@ -10,7 +11,7 @@ SMALL_BLOCKS = 4      # runner: every 4th case keeps its stores in 2..10-token b
 GATES = {
     'quick': {'cases_in_small_blocks': 50, 'evaluations': 6000, 'accepted_File': 1200, 'targets_accepted_ge5': 30, 'layout_comment_before_dedent': 30,
               'layout_ws_only_line': 100, 'layout_no_final_newline': 200, 'layout_crlf': 300,
-              'inline_targets_respaced_multiline': 500, 'line_targets_reindented': 1500},
+              'inline_targets_respaced_multiline': 500, 'texts_with_very_long_token': 25, 'line_targets_reindented': 1500},
     'thorough': {'evaluations': 150000, 'accepted_File': 30000, 'targets_accepted_ge5': 33},
 }
 RULE = ('case = one generated document (normal or hostile profile; thorough adds 50..400-directive files) parsed as File with '
@@ -122,6 +123,16 @@ def run_case(col, r, idx):
         k = r.choice([0, 0, 0, len(text), r.randint(0, len(text))])
         text = text[:k] + ch + text[k:]
         col.count('texts_with_odd_character')
+    if idx % 23 == 11:
+        # one very long token (a block comment of several hundred lines, or a string of ten thousand characters): whatever batches
+        # or buffers text on the way in or out must keep it in its place
+        if r.random() < 0.5:
+            big = ''.join(f'; line {k} of a long comment{r.choice(["", " ", "  x"])}\n' for k in range(r.randint(300, 500)))
+        else:
+            big = '2000-01-01 note Assets:Foo "' + 'long ' * r.randint(1700, 2500) + '"\n'
+        k = r.choice([0, len(text)] + [m.end() for m in re.finditer(r'\n(?=\d{4}-)', text)][:3])
+        text = text[:k] + big + text[k:]
+        col.count('texts_with_very_long_token')
     _layout_counters(col, text)
     col.count('documents')
     first = None
